@@ -487,7 +487,8 @@ func alterModes(t *engine.T, sigLen int) (tbsMode, sigMode int) {
 	return 2, 2
 }
 
-// alter substitutes every byte of the TBS TLV and of the signature value and asks accept whether the library
+// alter substitutes every byte of the TBS TLV, of the signature value and of the signature field's framing (BIT STRING
+// tag, length, unused-bits octet) and asks accept whether the library
 // still accepts the object. accept returns (accepted, rejection stage).
 func alter(t *engine.T, keyPrefix, ctx string, so *signedObj, accept func(m []byte) (bool, string)) {
 	tbsMode, sigMode := alterModes(t, so.sigLen)
@@ -497,7 +498,9 @@ func alter(t *engine.T, keyPrefix, ctx string, so *signedObj, accept func(m []by
 		off, n   int
 		mode     int
 		reported bool
-	}{{"tbs", so.tbsOff, so.tbsLen, tbsMode, false}, {"signature", so.sigOff, so.sigLen, sigMode, false}}
+	}{{"tbs", so.tbsOff, so.tbsLen, tbsMode, false}, {"signature", so.sigOff, so.sigLen, sigMode, false},
+		// the framing of the signature field: BIT STRING tag, length octets and the unused-bits octet (all 255 values)
+		{"signature-framing", so.algOff + so.algLen, so.sigOff - (so.algOff + so.algLen), 3, false}}
 	nParse, nSig := 0, 0
 	for ri := range regions {
 		r := &regions[ri]
